@@ -304,6 +304,7 @@ func c17uRound(t *testing.T, ids []hotstuff.ID, bf int, nodes map[hotstuff.ID]*c
 		s0, p0, c0, e0 := len(lg.subCalls), len(lg.proposes), len(lg.contribs), lg.emptySubs
 		pc := testutil.CreatePC(t, block, nd.ess.Authority())
 		var err error
+		t0 := time.Now() // the aggregation timer of this replica starts while it handles the proposal
 		if i == 0 {
 			err = nd.kauri.Disseminate(proposal, pc)
 		} else {
@@ -343,6 +344,11 @@ func c17uRound(t *testing.T, ids []hotstuff.ID, bf int, nodes map[hotstuff.ID]*c
 			nd.ess.EventLoop().AddEvent(&kauripb.Contribution{ID: uint32(c), View: uint64(fc.View), Signature: hotstuffpb.QuorumSignatureToProto(fc.QC)})
 			c17uDrain(nd)
 			res.delivered++
+			if c17uCurWait > 0 && time.Since(t0) >= c17uCurWait*7/10 {
+				// the timer was due (or nearly) before this delivery was handled: its event may have been queued
+				// in front of the contribution, so an aggregate without this child says nothing about the code
+				res.spoiled = true
+			}
 		}
 		if len(children) > 0 && err == nil {
 			deadline := time.Now().Add(5 * time.Second)
@@ -365,6 +371,9 @@ func c17uRound(t *testing.T, ids []hotstuff.ID, bf int, nodes map[hotstuff.ID]*c
 	}
 	return res
 }
+
+// c17uCurWait is the aggregation wait time of the cluster c17uRound is driving (set by its caller).
+var c17uCurWait time.Duration
 
 func TestVerifC17(t *testing.T) {
 	v := verifNew("C17")
@@ -439,6 +448,7 @@ func TestVerifC17(t *testing.T) {
 						c17uDrain(nodes[x])
 					}
 				}
+				c17uCurWait = wait
 				res := c17uRound(t, ids, bf, nodes, heights)
 				delivered += res.delivered
 				spoiled = spoiled || res.spoiled
